@@ -202,7 +202,10 @@ class BirthDeath(Distribution):
                     self.origin,
                 ),
             ).sum(-1)
+        # log of a safe value where rho == 0 (unselected branch): the derivative of
+        # log at zero would otherwise turn the gradient into NaN
+        safe_rho = torch.where(self.rho > 0.0, self.rho, torch.ones_like(self.rho))
         log_p += torch.where(
-            is_rho_tip, torch.log(self.rho), torch.zeros_like(y)
+            is_rho_tip, torch.log(safe_rho), torch.zeros_like(y)
         ).sum(-1)
         return log_p
